@@ -428,3 +428,87 @@ func witnessSchemaCacheRace(c *core.Ctx, db string) error {
 	c.NonTrivial()
 	return r.err
 }
+
+// witnessIndexCommitCrash: series with tags are created, PrepareFlush, the REAL index Flush runs and the
+// process dies just before its (j+1)-th kv family commit (j = 0..3: a crash between every pair of family
+// commits). After recovery a new tag set and every old tag set are asked for: a new tag set must not get
+// a series id that the recovered series dictionary uses for another tag set.
+func witnessIndexCommitCrash(c *core.Ctx, db string, j int) error {
+	r, err := newRunner(c, db, 1, 0)
+	if err != nil {
+		return err
+	}
+	defer r.close()
+	r.o.tag = "index-commit-crash-"
+	mid, _ := r.metric(0, 0)
+	m := int(mid)
+	r.mprepare()
+	r.mflush()
+	for v := 0; v < 3; v++ {
+		r.series(0, 0, 0, m, []kv{{0, v}})
+	}
+	r.iprepare(0)
+	r.iflushimg(0, j)
+	r.series(0, 0, 0, m, []kv{{0, 7}}) // a new tag set
+	for v := 0; v < 3; v++ {
+		r.series(0, 0, 0, m, []kv{{0, v}})
+	}
+	r.mseries(0, m)
+	c.Branch("witness-index-commit-crash")
+	c.NonTrivial()
+	return r.err
+}
+
+// witnessBucketCacheRace: three parties on the metric dictionary's LRU bucket cache.
+//  1. a first metric is frozen by PrepareFlush, metric x is created (no bucket on disk yet: nothing is
+//     cached), the flush persists the first metric: the metric bucket exists on disk, without x; the
+//     namespace bucket is put into its cache by a lookup of an unknown namespace with the same first byte;
+//  2. x is frozen by the next PrepareFlush;
+//  3. a lookup-only GetMetricID of an unknown name takes the metric store's snapshot and is stopped
+//     (yield index.kvstore.afterSnapshot) before it reads and caches the bucket;
+//  4. the metadata Flush persists x, installs the new snapshot and purges the cache;
+//  5. the lookup continues: it caches the bucket of the OLD snapshot (and answers not-found);
+//  6. with no concurrency left, GenMetricID(ns, x): the lock-free lookup misses through the stale bucket;
+//     createValue must find x in s.snapshot under the lock and answer x's id.
+func witnessBucketCacheRace(c *core.Ctx, db string) error {
+	r, err := newRunner(c, db, 1, 0)
+	if err != nil {
+		return err
+	}
+	defer r.close()
+	r.o.tag = "bucket-cache-"
+	const ns, x, unknown = 0, 1, 9
+	r.metric(ns, 0)
+	r.mprepare()
+	// x is created while the bucket is not yet on disk: its own lookup finds no bucket and caches nothing
+	r.metric(ns, x)
+	r.mflush()        // persists the namespace and metric 0: the metric bucket exists on disk now, caches purged
+	r.getMetric(3, 0) // unknown namespace "ans3", same first byte: the NAMESPACE bucket is cached now
+	r.mprepare()      // x is frozen
+	op := fmt.Sprintf("bcrace %d %d %d", nsBucket(ns), ns, x)
+	var l, xo string
+	var parked bool
+	r.guard(op, func() string {
+		l, _, parked = raceTwo("index.kvstore.afterSnapshot",
+			func() string { return idOut(r.s.getMetric(ns, unknown)) },
+			func() string { return okOut(r.s.meta.Flush()) })
+		xo = idOut(r.s.genMetric(ns, x))
+		return "L=" + l + " X=" + xo
+	})
+	if !parked {
+		c.Fail("witness-not-scheduled", "bcrace: the lookup never reached yield point index.kvstore.afterSnapshot")
+	}
+	r.o.syncDone()
+	if id, ok := parseID(xo); ok {
+		r.o.observe(nameKey{"metric", strconv.Itoa(ns), strconv.Itoa(x)}, id, op)
+		// the lookup-only path has no createValue behind it: through the stale bucket it would not find
+		// x although x has an id (raw call: the sequential model has no bucket cache)
+		if id2, err := r.s.getMetric(ns, x); err != nil || id2 != id {
+			c.Fail("bucket-cache-stale-lookup-misses-persisted-name",
+				fmt.Sprintf("%s: GenMetricID answered id %d for metric %d, GetMetricID afterwards: id=%d err=%v", op, id, x, id2, err))
+		}
+	}
+	c.Branch("witness-bucket-cache-race")
+	c.NonTrivial()
+	return r.err
+}
